@@ -61,14 +61,15 @@ def gen_simplex(rng):
     v = rng.choice(['unitsquare', 'strip', 'kuhn'], p=[.3, .3, .4])
     if v == 'unitsquare':
         return dict(kind='simplex', variant='unitsquare', n=int(rng.integers(1, 4)))
+    perm = int(rng.integers(0, 2**31)) if rng.random() < .7 else None
     if v == 'strip':
         nd = int(rng.integers(1, 4))
-        return dict(kind='simplex', variant='strip', nd=nd, nverts=int(nd + 1 + rng.integers(0, 6)))
+        return dict(kind='simplex', variant='strip', nd=nd, nverts=int(nd + 1 + rng.integers(0, 6)), perm=perm)
     nd = int(rng.choice([2, 3]))
     shape = [int(rng.integers(1, 4 if nd == 2 else 3)) for _ in range(nd)]
     if nd == 3 and numpy.prod(shape) > 4:
         shape = [1, 2, 1]
-    return dict(kind='simplex', variant='kuhn', shape=shape)
+    return dict(kind='simplex', variant='kuhn', shape=shape, perm=perm)
 
 
 MP_LAYOUTS = {
@@ -225,6 +226,12 @@ def build(spec, space='X'):
         else:
             nd = len(spec['shape'])
             simplices = _kuhn(spec['shape'])
+        if spec.get('perm') is not None:
+            # relabel the vertices and shuffle the element order: same complex, irregular order of dof merging
+            r = numpy.random.default_rng(spec['perm'])
+            relabel = r.permutation(int(simplices.max()) + 1)
+            simplices = numpy.sort(relabel[simplices], axis=1)
+            simplices = simplices[r.permutation(len(simplices))]
         transforms = transformseq.IndexTransforms(nd, len(simplices))
         topo = topology.SimplexTopology(space, simplices, transforms, transforms)
         return T(topo=topo, kind={1: 'line-simplex', 2: 'triangle', 3: 'tetrahedron'}[nd] + '-' + v, nd=nd, simplices=simplices)
